@@ -39,7 +39,8 @@ def write_cfg(name, consts, invariants=(), properties=(), view=True,
               spec='Spec'):
     d = dict(ThreshC=1, ThreshS=1, MaxApp=3, MaxKex=3,
              FlushBeforeNewkeys='FALSE', RepeatC='TRUE', RepeatS='TRUE',
-             RelatchStrict='FALSE')
+             RelatchStrict='FALSE', Timer='{}', MaxTicks=0,
+             TimerIgnoresKex='FALSE')
     d.update(consts)
     lines = ['CONSTANTS'] + [f'  {k} = {v}' for k, v in d.items()]
     lines += [f'SPECIFICATION {spec}', 'CHECK_DEADLOCK FALSE']
@@ -185,7 +186,8 @@ def busy_session(ctx, T, kw, rekey_c, rekey_s, what, sig, by_time=False,
 
 TRACE_CONSTS = dict(ThreshC=0, ThreshS=0, MaxApp=100000, MaxKex=100000,
                     FlushBeforeNewkeys='FALSE', RepeatC='TRUE', RepeatS='TRUE',
-                    RelatchStrict='FALSE')
+                    RelatchStrict='FALSE', Timer='{}', MaxTicks=0,
+                    TimerIgnoresKex='FALSE')
 DIAG = ['DiagOut', 'DiagKc', 'DiagKs', 'DiagKexing', 'DiagStaged', 'DiagNdef',
         'DiagCnt', 'DiagErr']
 
@@ -316,20 +318,34 @@ def main(ctx):
     mc(ctx, 'c11_sens_mk', dict(RepeatC='FALSE', RelatchStrict='TRUE',
                                 MaxKex=6), ['NoKeyMismatch'],
        expect='NoKeyMismatch')
+    # re-keying by time (rekey_seconds): the limit can pass at any moment,
+    # also while an exchange is running and again before it completes
+    for tm, tc, ts in (('{"c"}', 0, 0), ('{"s"}', 0, 1), ('{"c", "s"}', 1, 0)):
+        mc(ctx, f'c11_tm_{len(tm)}{tc}{ts}',
+           dict(Timer=tm, MaxTicks=3, ThreshC=tc, ThreshS=ts, MaxApp=3,
+                MaxKex=8), INVS)
+    mc(ctx, 'c11_sens_tm', dict(Timer='{"c"}', MaxTicks=2, ThreshC=0,
+                                ThreshS=0, TimerIgnoresKex='TRUE', MaxKex=6),
+       ['NoKeyMismatch'], expect='NoKeyMismatch')
     mc(ctx, 'c11_w1', {}, ['NeverSimultaneous'], expect='NeverSimultaneous')
     mc(ctx, 'c11_w2', {}, ['NeverRekey'], expect='NeverRekey')
     # ---- 2. replay ----
     n = 50 if quick else 500
     total = 0
-    for name, tc, ts in (('c', 1, 0), ('s', 0, 1), ('both', 1, 1)):
-        traces, d = sim(f'c11_sim_{name}',
-                        dict(ThreshC=tc, ThreshS=ts, MaxApp=4, MaxKex=12),
-                        n, 60, ctx.seed + 21)
+    for name, tc, ts, tm in (('c', 1, 0, ''), ('s', 0, 1, ''),
+                             ('both', 1, 1, ''), ('tc', 0, 0, 'c'),
+                             ('ts', 0, 0, 's'), ('tcs', 0, 1, 'cs')):
+        consts = dict(ThreshC=tc, ThreshS=ts, MaxApp=4, MaxKex=12)
+        if tm:
+            # (MaxKex out of reach: the bound is an artefact of the model)
+            consts.update(Timer='{' + ', '.join(f'"{x}"' for x in tm) + '}',
+                          MaxTicks=4, MaxKex=60)
+        traces, d = sim(f'c11_sim_{name}', consts, n, 60, ctx.seed + 21)
         ctx.require(traces, f'no traces for {name}')
         for steps in traces:
             if len(steps) < 3:
                 continue
-            r = rekey.replay(steps, tc, ts)
+            r = rekey.replay(steps, tc, ts, timer=tm)
             total += 1
             ctx.count((name, tuple(map(str, r['script']))),
                       nontrivial='KEXINIT' in str(steps[-1][1]['s']['out']))
@@ -340,7 +356,7 @@ def main(ctx):
                                sorted({c.split(':')[0] for c in r['l1']})},
                               '; '.join(r['l1'][:3]),
                               replay={'kind': 'behaviour', 'thresh': [tc, ts],
-                                      'script': r['script']})
+                                      'timer': tm, 'script': r['script']})
             elif r['diverged']:
                 ctx.divergence(f'{name}: {r["diverged"]} script='
                                f'{r["script"]}')
